@@ -13,6 +13,10 @@ DIRECTED = [
      [{'all': False, 'check': 'CheckNonceMSB', 'batch': ['s1', 's2', 's3']}, {'all': False, 'check': 'CheckNonceGeneralized', 'batch': ['s1', 's3']},
       {'all': False, 'check': 'CheckCr50U2f', 'batch': ['s1', 's2']}]),
     ('ecdsa', 'two-curves', {'s1': 'msb384', 's2': 'msbA', 's3': 'healthy384'}, [{'all': False, 'check': 'CheckNonceMSB', 'batch': ['s3', 's1', 's2']}]),
+    ('ecdsa', 'lcg-then-curves-without-model', {'s1': 'lcgA', 's2': 'healthy521', 's3': 'healthyk1'},
+     [{'all': False, 'check': 'CheckLCGNonceGMP', 'batch': ['s1', 's2', 's3']}, {'all': False, 'check': 'CheckLCGNonceJavaUtilRandom', 'batch': ['s1', 's2', 's3']}]),
+    ('ec', 'negative-logarithm', {'s1': 'weakprivateneg', 's2': 'weakprivate', 's3': 'weakprivateneg'},
+     [{'all': False, 'check': 'CheckWeakECPrivateKey', 'batch': ['s1', 's2', 's3']}]),
     ('ec', 'structured', {'s1': 'weakprivate', 's2': 'healthy', 's3': 'closeA', 's4': 'closeB'},
      [{'all': False, 'check': 'CheckWeakECPrivateKey', 'batch': ['s1', 's2']},
       {'all': False, 'check': 'CheckECKeySmallDifference', 'batch': ['s3', 's2', 's4', 's1']}]),
